@@ -160,6 +160,7 @@ fn main() {
         "replay-gen" => cmd_replay_gen(&args[2..]),
         "shrink" => cmd_shrink(&args[2..]),
         "merge-fp" => cmd_merge(&args[2..]),
+        "refcheck" => cmd_refcheck(&args[2..]),
         _ => {
             eprintln!("unknown command");
             std::process::exit(2);
@@ -330,4 +331,44 @@ fn cmd_shrink(a: &[String]) {
         json_escape(&class),
         json_escape(&msg)
     );
+}
+
+
+/// sanity of the reference model: every libFLAC-made fixture of the repository must be a valid stream
+/// for refflac, with refflac's PCM hashing to the stored MD5 and equal to the crate's decode
+fn cmd_refcheck(files: &[String]) {
+    let mut bad = 0;
+    for f in files {
+        let bytes = std::fs::read(f).expect("fixture");
+        match refflac::parse_stream(&bytes, 0) {
+            Ok(s) => {
+                let pcm = s.pcm();
+                let md5_ok = s.meta.si.md5 == [0u8; 16] || refflac::pcm_md5(&pcm, s.meta.si.bps) == s.meta.si.md5;
+                let mut r = flac_codec::decode::FlacSampleReader::new(std::io::Cursor::new(&bytes)).expect("crate opens fixture");
+                let mut v = Vec::new();
+                let cr = r.read_to_end(&mut v);
+                let same = cr.is_ok() && v == pcm;
+                // strict (writer-side) rules are informational here: four hand-made fixtures number every frame 0
+                let ok = s.is_valid() && md5_ok && same;
+                println!(
+                    "REFCHECK {} frames={} samples={} valid={} strict_issues={} md5_ok={md5_ok} equals_crate_decode={same} -> {}",
+                    f,
+                    s.frames.len(),
+                    pcm.len(),
+                    s.is_valid(),
+                    s.strict.len(),
+                    if ok { "ok" } else { "MISMATCH" }
+                );
+                if !ok {
+                    bad += 1;
+                    println!("   end={:?} hard={:?} strict={:?}", s.end, s.hard.first(), s.strict.first());
+                }
+            }
+            Err(e) => {
+                bad += 1;
+                println!("REFCHECK {f}: refflac cannot parse: {e:?}");
+            }
+        }
+    }
+    std::process::exit(if bad == 0 { 0 } else { 2 });
 }
